@@ -39,7 +39,7 @@ func verifC01(ssa bool) {
 		return d
 	}
 	// initial state of desired child "a"
-	roleA := rt.Choice("initial-a", 5)
+	roleA := rt.Choice("initial-a", 6)
 	drifted := false
 	switch roleA {
 	case 1: // owned, created earlier from the same desired state
@@ -60,6 +60,12 @@ func verifC01(ssa bool) {
 		a := env.ConfigMap("ns", "a", "uid-a", obsVal)
 		env.SetLabel(a, matchKey, matchVal)
 		a.Object["data"].(map[string]interface{})["other"] = "theirs"
+		w.Srv.Put("configmaps", a)
+		drifted = true
+	case 5: // matching orphan that already lists the parent as a plain (non-controller) owner
+		a := env.ConfigMap("ns", "a", "uid-a", obsVal)
+		env.SetLabel(a, matchKey, matchVal)
+		env.AddOwnerRef(a, env.OwnerRefMap(parent.GetAPIVersion(), parent.GetKind(), parent.GetName(), puid, false))
 		w.Srv.Put("configmaps", a)
 		drifted = true
 	}
